@@ -174,4 +174,11 @@ partial def runLoop (handle : Sexp → Sexp → CaseResult) (h : IO.FS.Stream) (
   if !l.isEmpty then out.putStrLn (runLine handle l)
   runLoop handle h out
 
+/-- `main` of a per-property driver: read case lines on stdin, print result lines. -/
+def runMain (handle : Sexp → Sexp → CaseResult) : IO UInt32 := do
+  let stdin ← IO.getStdin
+  let stdout ← IO.getStdout
+  runLoop handle stdin stdout
+  return 0
+
 end QV
